@@ -183,7 +183,12 @@ func (vc *VC) iteVal(c Term, a, b Val) Val {
 		if a.Fn != nil || b.Fn != nil {
 			r.Fn = nil
 			r.Binds = nil
-			r.T = vc.freshInt("funcmerge")
+			if a.T.S != "" && b.T.S != "" && a.T.Sort == b.T.Sort {
+				// the identity of the function value survives the merge (the callee does not)
+				r.T = Ite(c, a.T, b.T)
+			} else {
+				r.T = vc.freshInt("funcmerge")
+			}
 			return r
 		}
 	}
@@ -319,6 +324,28 @@ func (e *SpecEnv) ident(name string) Val {
 			case *types.Var:
 				p := e.vc.globalAddr(x)
 				return e.vc.load(e.cur, p, x.Type())
+			}
+		}
+	}
+	if e.f != nil && e.at != nil {
+		// a local variable of this function that is not in scope at this point (its definition does
+		// not dominate it): its value here is arbitrary
+		for _, b := range e.f.fn.Blocks {
+			for _, in := range b.Instrs {
+				switch x := in.(type) {
+				case *ssa.Alloc:
+					if x.Comment == name {
+						return e.vc.freshVal(derefType(x.Type()), "outofscope."+name)
+					}
+				case *ssa.Phi:
+					if x.Comment == name {
+						return e.vc.freshVal(x.Type(), "outofscope."+name)
+					}
+				case *ssa.DebugRef:
+					if x.Object() != nil && x.Object().Name() == name && !x.IsAddr {
+						return e.vc.freshVal(x.X.Type(), "outofscope."+name)
+					}
+				}
 			}
 		}
 	}
@@ -769,6 +796,16 @@ func (e *SpecEnv) call(n SCall) Val {
 			}
 		}
 		e.fail("allocatedAt: loop %d has no explicit frame (loop modifies) or is not active here", ord)
+	case "boundfn":
+		// boundfn("(pkg.T).M", x): the identity of the method value x.M
+		ms, ok := n.Args[0].(SStrLit)
+		if !ok {
+			e.fail("boundfn(\"(pkg.Type).Method\", receiver)")
+		}
+		xv := e.Eval(n.Args[1])
+		name := boundFnName(ms.V)
+		vc.decls.Fun(name, []Sort{SInt}, SInt)
+		return Val{K: KInt, T: App(SInt, name, xv.T)}
 	case "strbytes":
 		// strbytes(s): the bytes of string s as an array (what []byte(s) holds)
 		sv := e.Eval(n.Args[0])
